@@ -68,6 +68,7 @@ type c13StyleT struct {
 	Hi, Lo             byte   // mode letters of the two privileges (default o, v)
 	HiPfx, LoPfx       string // their NAMES prefixes
 	Topics             [3]string
+	KeyOff             string            // the argument of "-k": "" = the key itself, otherwise e.g. "*" (servers of the hybrid family hide it)
 	Flags324           string            // channel flags every channel of this network has, reported in the 324 reply
 	Chans              [c13NChans]string // "" = #x, #y
 	CaseNicks          bool              // users rename between spellings of their own name (a / A / a2) instead of sharing a pool
@@ -76,8 +77,8 @@ type c13StyleT struct {
 var c13Styles = []c13StyleT{
 	{Name: "default", PartMsg: " :bye", KickMsg: " :out", QuitMsg: " :gone", NickColon: true, Hi: 'o', Lo: 'v', HiPfx: "@", LoPfx: "+", Topics: c13Topics},
 	{Name: "terse-halfop", PartMsg: "", KickMsg: "", QuitMsg: "", NickColon: false, JoinCol: true, Hi: 'o', Lo: 'h', HiPfx: "@", LoPfx: "%", Topics: [3]string{"", "t one ", " t two"}, Flags324: "ps", CaseNicks: true, Chans: [c13NChans]string{"#X", "&Yy"}},
-	{Name: "empty-reasons-admin", PartMsg: " :", KickMsg: " :", QuitMsg: " :", NickColon: true, Hi: 'a', Lo: 'v', HiPfx: "&", LoPfx: "+", Topics: [3]string{"", ":", "t  two :x"}, Flags324: "timrzZO"},
-	{Name: "owner-halfop", PartMsg: " :see you later", KickMsg: " :a b c", QuitMsg: " :Quit: leaving", NickColon: true, JoinCol: true, Hi: 'q', Lo: 'h', HiPfx: "~", LoPfx: "%", Topics: c13Topics, Flags324: "sp", CaseNicks: true, Chans: [c13NChans]string{"#Go", "+y"}},
+	{Name: "empty-reasons-admin", PartMsg: " :", KickMsg: " :", QuitMsg: " :", NickColon: true, Hi: 'a', Lo: 'v', HiPfx: "&", LoPfx: "+", Topics: [3]string{"", ":", "t  two :x"}, Flags324: "timrzZO", KeyOff: "x"},
+	{Name: "owner-halfop", PartMsg: " :see you later", KickMsg: " :a b c", QuitMsg: " :Quit: leaving", NickColon: true, JoinCol: true, Hi: 'q', Lo: 'h', HiPfx: "~", LoPfx: "%", Topics: c13Topics, Flags324: "sp", KeyOff: "*", CaseNicks: true, Chans: [c13NChans]string{"#Go", "+y"}},
 }
 
 // c13Style is the style of the session being run (one session at a time per worker process).
@@ -468,6 +469,9 @@ func (n *ircNet) Apply(e c13Ev) []string {
 		case c13ModeK:
 			ch.Key = !ch.Key
 			change = sign(ch.Key) + "k " + c13Key
+			if !ch.Key && c13Style.KeyOff != "" {
+				change = "-k " + c13Style.KeyOff
+			}
 			if seen {
 				ch.RKey = ch.Key
 			}
